@@ -37,9 +37,9 @@ func scalarDomain0(fd protoreflect.FieldDescriptor, thorough bool) []nv {
 	case protoreflect.BoolKind:
 		return []nv{{"false", V(false)}, {"true", V(true)}}
 	case protoreflect.Int32Kind, protoreflect.Sint32Kind, protoreflect.Sfixed32Kind:
-		return []nv{{"0", V(int32(0))}, {"1", V(int32(1))}, {"-1", V(int32(-1))}, {"127", V(int32(127))}, {"128", V(int32(128))}, {"max", V(int32(math.MaxInt32))}, {"min", V(int32(math.MinInt32))}}
+		return []nv{{"0", V(int32(0))}, {"1", V(int32(1))}, {"-1", V(int32(-1))}, {"127", V(int32(127))}, {"128", V(int32(128))}, {"63", V(int32(63))}, {"64", V(int32(64))}, {"-64", V(int32(-64))}, {"-65", V(int32(-65))}, {"-8192", V(int32(-8192))}, {"max", V(int32(math.MaxInt32))}, {"min", V(int32(math.MinInt32))}}
 	case protoreflect.Int64Kind, protoreflect.Sint64Kind, protoreflect.Sfixed64Kind:
-		return []nv{{"0", V(int64(0))}, {"1", V(int64(1))}, {"-1", V(int64(-1))}, {"128", V(int64(128))}, {"2^31", V(int64(1 << 31))}, {"-2^31-1", V(int64(-1<<31 - 1))}, {"max", V(int64(math.MaxInt64))}, {"min", V(int64(math.MinInt64))}}
+		return []nv{{"0", V(int64(0))}, {"1", V(int64(1))}, {"-1", V(int64(-1))}, {"128", V(int64(128))}, {"64", V(int64(64))}, {"-64", V(int64(-64))}, {"-65", V(int64(-65))}, {"-2^34", V(int64(-1 << 34))}, {"2^31", V(int64(1 << 31))}, {"-2^31-1", V(int64(-1<<31 - 1))}, {"max", V(int64(math.MaxInt64))}, {"min", V(int64(math.MinInt64))}}
 	case protoreflect.Uint32Kind, protoreflect.Fixed32Kind:
 		return []nv{{"0", V(uint32(0))}, {"1", V(uint32(1))}, {"127", V(uint32(127))}, {"128", V(uint32(128))}, {"2^31", V(uint32(1 << 31))}, {"max", V(uint32(math.MaxUint32))}}
 	case protoreflect.Uint64Kind, protoreflect.Fixed64Kind:
